@@ -1,7 +1,7 @@
 SPECIFICATION Spec
 CONSTANTS
   Kind = "rm"
-  Units = 7
+  Units = 6
   Grain = 2
   Heads = 1
   UncoCand = {2}
